@@ -9,7 +9,8 @@ store otherwise, mount points and their parents are directories); every operatio
 owning part, as the same operation on the stripped key would (dict-based reference per part);
 `sub.to_root_key(k)` read through `sub.root_store()` reaches the entry `k` of `sub`.
 """
-import itertools
+import itertools, os
+import common
 import layers as Y
 from layers import Ref
 
@@ -26,7 +27,8 @@ ASSUMPTIONS = ["mount tables satisfy tableWF: distinct non-empty prefixes, an ou
 EXPLANATION = ("theorems: route_to = innermost (= last mounted) matching mount, else default (every table); under tableWF contains/is_dir/metadata key/listdir/keys of "
                "the composite equal the re-prefixed union of the parts; every write changes only the owning part; to_root_key reaches the same entry when no inner mount shadows it")
 
-PREFIXES = ["a", "a/b", "c", "c/d"]
+# "ab" and "c/dd" extend "a" / "c/d" as TEXT but not as paths: routing and directory flags must respect component boundaries
+PREFIXES = ["a", "a/b", "c", "c/d", "ab", "c/dd"]
 PARTFILES = ["x", "b/y", "d/w"]
 DEFFILES = ["a/hidden", "a/b/deep", "c/d/w", "z"]
 NEWKEYS = ["n", "a/n", "a/b/n", "c/d/n", "c/n"]
@@ -178,8 +180,11 @@ class Composite:
                 if st.is_dir(k):
                     r.n[k] = ("D",)
                 else:
-                    m = Y.read_key(st, k, self.md5)["get_metadata"][1]
-                    r.n[k] = ("F", st.get_bytes(k), m["user"], m["size"], self.md5.m.get(m["md5"]))
+                    try:
+                        m = Y.read_key(st, k, self.md5)["get_metadata"][1]
+                        r.n[k] = ("F", st.get_bytes(k), m["user"], m["size"], self.md5.m.get(m["md5"]))
+                    except Exception:
+                        r.n[k] = ("F", None, {}, None, None)      # a part that lists a key it cannot read: the comparison will show it
             return r
         if self.default is not None:
             self.dref = rebuild(self.default)
@@ -374,11 +379,14 @@ def report(ctx, kind, default, table, ops, cls, seen):
     if not steps:
         return
     d2, t2, o2 = minimise(kind, default, table, ops[:min(steps)], cls)
+    r = run_case(kind, d2, t2, ops=o2)
+    if not any(c == cls for c, _, _ in r["findings"]):
+        # the shrunk case does not reproduce (the failure depends on something the shrinker changed, e.g. the mount order): keep the original
+        d2, t2, o2, r = default, table, ops, r0
     key = "mt:%s:h=%s:%s" % (cfg_key(kind, d2, t2), Y.enc_ops(o2), cls)
     if key in seen:
         return
     seen.add(key)
-    r = run_case(kind, d2, t2, ops=o2)
     text = [t for c, t, s in r["findings"] if c == cls][-1]
     ctx.violation(key, "%s; %s; then %s" % (cfg_text(kind, d2, t2), Y.show_hist(o2), text),
                   dict(kind="mt", part=kind, default=d2, table=[[p, f] for p, f in t2], ops=[Y.op_json(o) for o in o2], cls=cls))
@@ -403,6 +411,50 @@ def probe_recipes_key(ctx):
                       dict(kind="recipes_key"))
 
 
+def probe_nested(ctx):
+    """a MountPointStore mounted inside a MountPointStore (as get_web_store()/web_mount() build): `sub.to_root_key(k)` read through
+    `sub.root_store()` reaches entry `k` of `sub`, for every depth; the key itself is compared with Mt.toRootKeyChain"""
+    from liquer.store import MemoryStore, FileStore, MountPointStore
+    rng = ctx.rng
+    cases = []
+    for trial in range(60 if ctx.tier == "thorough" else 14):
+        depth = rng.choice([2, 2, 3])
+        prefixes = [rng.choice(["web", "gui", "a", "a/b", "x/y/z", "ab"]) for _ in range(depth)]     # outermost first
+        tmp = common.scratch_dir()
+        try:
+            leaf = MemoryStore() if rng.random() < 0.5 else FileStore(tmp)
+            root = MountPointStore(MemoryStore())
+            cur = root
+            for i, p in enumerate(prefixes):
+                nxt = leaf if i == depth - 1 else MountPointStore(MemoryStore() if rng.random() < 0.5 else None)
+                cur.mount(p, nxt)
+                cur = nxt
+            keys = rng.sample(["index.html", "d/f.txt", "q", "a/b/c", "web/x"], 3)
+            for k in keys:
+                leaf.store(k, ("data of " + k).encode(), {})
+            for k in keys:
+                rk = leaf.to_root_key(k)
+                cases.append((prefixes, k, rk))
+                want = "/".join(prefixes + [k])
+                ok = True
+                try:
+                    rs = leaf.root_store()
+                    ok = rs is root and rs.get_bytes(rk) == leaf.get_bytes(k) and rs.get_metadata(rk)["key"] == rk and rs.contains(rk)
+                except Exception:
+                    ok = False
+                if not ok or rk != want:
+                    ctx.violation("mt:nested:to_root_key:depth=%d" % depth,
+                                  "stores nested at %r (outermost first): to_root_key(%r) of the innermost store = %r (expected %r); read through the root store it %s" % (
+                                      prefixes, k, rk, want, "reaches the same entry" if ok else "does not reach the same entry"),
+                                  dict(kind="nested", prefixes=prefixes, key=k))
+        finally:
+            import shutil
+            shutil.rmtree(tmp, ignore_errors=True)
+    ans = ctx.driver.ask(["mt.rootchain %s %s" % (",".join(Y.kx(p) for p in reversed(ps)), Y.kx(k)) for ps, k, _ in cases])
+    ctx.compare("to_root_key through nested mount-point stores", ["%r: %s" % (ps, k) for ps, k, _ in cases], [Y.kx(rk) for _, _, rk in cases], ans)
+    ctx.count("nested mount probes", "depth 2-3", len(cases))
+
+
 def run(ctx):
     import time
     thorough = ctx.tier == "thorough"
@@ -415,6 +467,7 @@ def run(ctx):
     fixed = [(c["part"], c["default"], [(p, f) for p, f in c["table"]], [Y.op_unjson(o) for o in c["ops"]])
              for c in Y.load_corpus("C14") if c.get("kind") == "mt"]
     probe_recipes_key(ctx)
+    probe_nested(ctx)
     t0, rounds, done = time.time(), 0, 0
     while True:
         if rounds == 0:
